@@ -253,7 +253,7 @@ def cov_error_blocks(P, P_ref, Pp_ref, n, d, eps=1e-5):
     return E.reshape(n, d, n, d).max(axis=(1, 3))
 
 
-def compare_marginals(res, tag, case, lib_mean, lib_cov, ref, pert, idx=None, expected=None, lib_idx=None):
+def compare_marginals(res, tag, case, lib_mean, lib_cov, ref, pert, idx=None, expected=None, lib_idx=None, tol0=None):
     """Blockwise comparison of library marginals with the reference at all (or selected) output
     indices.  Tolerance per block = max(TOL0, FACTOR * attainable), attainable = distance between
     the reference and its perturbed twin; blocks beyond float64's reach (tol > SKIP) are skipped
@@ -282,8 +282,9 @@ def compare_marginals(res, tag, case, lib_mean, lib_cov, ref, pert, idx=None, ex
         else:
             am = np.maximum(am, mean_error_blocks(pert["mean"][i], ref["mean"][i], ref["cov"][i], ref["pcov"][i], n, d))
             ac = np.maximum(ac, cov_error_blocks(pert["cov"][i], ref["cov"][i], ref["pcov"][i], n, d))
-    tol_m = np.maximum(TOL0, FACTOR * am)
-    tol_c = np.maximum(10 * TOL0, FACTOR * ac)
+    tol0 = TOL0 if tol0 is None else tol0
+    tol_m = np.maximum(tol0, FACTOR * am)
+    tol_c = np.maximum(10 * tol0, FACTOR * ac)
     ok_m = tol_m <= SKIP
     ok_c = tol_c <= SKIP
     res.label(f"{tag}:mean_some_blocks_skipped" if ok_m.sum() < n else f"{tag}:mean_all_blocks")
@@ -455,3 +456,42 @@ def reference_on_trace(case, events, smooth=False, perturb=0.0, mp=True):
     return dict(grid=np.asarray(report_t), mean=np.asarray(means), cov=np.asarray(covs), pcov=np.asarray(pcovs),
                 scale=np.asarray(scales), num_steps=np.asarray(nsteps), ts=ts, kinds=kinds, f=f, spec=spec, idx=idx,
                 all_mean=[N.to_float(m) for m in ms], all_cov=[N.to_float(K.calibrate_cov(spec, P, scale) if scale is not None else P) for P in Ps])
+
+
+# ------------------------------------------------------------------------------------
+# R4: joint law from a returned backward Markov factorisation
+
+
+def backward_dense(out, cfg):
+    """[(A_i, b_i, Q_i)] with x_i | x_{i+1} ~ N(A_i x_{i+1} + b_i, Q_i), coefficient-major."""
+    from vlib import lib
+
+    fact, n, d = cfg["fact"], cfg["n"], cfg["d"]
+    perm = lib.perm_to_coeff_major(fact, n, d)
+    res = []
+    for A, b, L in zip(out["bw_A"], out["bw_b"], out["bw_L"]):
+        Ad = lib.embed_mat(fact, A, d)
+        bd = lib.embed_vec(fact, b, d)
+        Ld = lib.embed_mat(fact, L, d)
+        Ad, bd, Qd = Ad[np.ix_(perm, perm)], bd[perm], (Ld @ Ld.T)[np.ix_(perm, perm)]
+        res.append((Ad, bd, Qd))
+    return res
+
+
+def cross_error(Cx, Cx_ref, Pa, Pb, Ppa, Ppb, eps=1e-5):
+    if not np.all(np.isfinite(Cx)):
+        return np.inf
+    sa = np.sqrt(np.clip(np.diag(Pa), 0, None))
+    sb = np.sqrt(np.clip(np.diag(Pb), 0, None))
+    pa = np.sqrt(np.clip(np.diag(Ppa), 0, None))
+    pb = np.sqrt(np.clip(np.diag(Ppb), 0, None))
+    sc = np.maximum(np.outer(sa, sb) + eps * np.outer(pa, pb), 1e-300)
+    return float(np.max(np.abs(Cx - Cx_ref) / sc))
+
+
+def reference_cross_cov(ref_all_cov, gains, i, j):
+    """Cov(x_i, x_j) = G_i ... G_{j-1} P^s_j for node indices i < j (float arrays)."""
+    M = np.eye(ref_all_cov[j].shape[0])
+    for k in range(i, j):
+        M = M @ gains[k]
+    return M @ ref_all_cov[j]
